@@ -135,11 +135,70 @@ Definition capacity_ok (kind maxsize : Z) (fins : list bool) (vals : list Z) (pi
          && forallb (fun b => match b with [] => true | _ => false end) bufs
       then s + Z.of_nat (length pipe) =? maxsize else true).
 
+(* no lost feeder wake-up: at a deadlock end a process with a non-empty buffer does not have
+   its feeder asleep on the notification semaphore of _notempty *)
+Fixpoint feeders_ok (p : nat) (bufs : list (list Z)) (pend : list Z) : bool :=
+  match bufs, pend with
+  | b :: bufs', _pm :: pf :: pend' =>
+    (match b with [] => true | _ => negb (pf =? Z.of_nat (9 + 2 * p)) end) && feeders_ok (S p) bufs' pend'
+  | _, _ => true
+  end.
+
+(* join is exact: a join that returned saw the number of unfinished tasks at zero at some
+   moment between its first and its last operation (count replayed from the trace) *)
+(* specification count of unfinished tasks, from the trace alone: +1 when a JoinableQueue.put
+   call releases the condition's lock (the item is then visibly put), -1 when a task_done
+   obtains the count *)
+Fixpoint unfinished_after (scripts : list (list qcall)) (c : Z) (es : list event) (ks : list nat) : list Z :=
+  match es, ks with
+  | (t, o, op, r) :: es', k :: ks' =>
+    let '(id, _, _, _) := qcall_at scripts t k in
+    let c' := if Nat.eqb id 3 && Nat.eqb o 4 && (op =? 1) && (r =? 0) then c + 1
+              else if Nat.eqb id 4 && Nat.eqb o 3 && (op =? 0) && (r =? 1) then c - 1 else c in
+    c' :: unfinished_after scripts c' es' ks'
+  | _, _ => []
+  end.
+
+Fixpoint idxs_of (t k : nat) (es : list event) (ks : list nat) (j : nat) : list nat :=
+  match es, ks with
+  | e :: es', k' :: ks' =>
+    let '(t', _, _, _) := e in
+    if Nat.eqb t' t && Nat.eqb k' k then j :: idxs_of t k es' ks' (S j) else idxs_of t k es' ks' (S j)
+  | _, _ => []
+  end.
+
+(* counts.(j) = number of unfinished tasks before event j (counts.(n) = after the last one) *)
+Definition join_window_ok (scripts : list (list qcall)) (t k : nat) (es : list event) (ks : list nat) : bool :=
+  let counts := 0 :: unfinished_after scripts 0 es ks in
+  match idxs_of t k es ks 0 with
+  | [] => false
+  | a :: rest => let b := last rest a in
+                 existsb (fun j => nth j counts 1 =? 0) (seq a (b + 2 - a))
+  end.
+
+Fixpoint joins_ok (scripts : list (list qcall)) (es : list event) (ks : list nat) (t k : nat) (sc : list qcall) (rs : list Z) : bool :=
+  match sc, rs with
+  | (id, _, _, _) :: sc', v :: rs' =>
+    (if Nat.eqb id 5 && (v =? V_NONE)
+     then join_window_ok scripts t k es ks else true)
+    && joins_ok scripts es ks t (S k) sc' rs'
+  | _, _ => true
+  end.
+
+Fixpoint all_joins_ok (scripts : list (list qcall)) (es : list event) (ks : list nat) (p : nat) (scs : list (list qcall))
+         (res : list (list Z)) : bool :=
+  match scs, res with
+  | sc :: scs', rm :: _rf :: res' => joins_ok scripts es ks (2 * p) 0 sc rm && all_joins_ok scripts es ks (S p) scs' res'
+  | _, _ => true
+  end.
+
 Definition qmonitors (kind maxsize : Z) (scripts : list (list qcall)) (o : qobserved) : bool :=
   let '(es, ks, res, fins, vals, pipe, bufs, pend, endk) := o in
   all_calls_ok scripts es ks 0 scripts res && traffic_ok scripts es pipe
   && capacity_ok kind maxsize fins vals pipe bufs pend
-  && forallb (fun v => 0 <=? v) vals.
+  && forallb (fun v => 0 <=? v) vals
+  && ((endk =? 2) || feeders_ok 0 bufs pend)
+  && all_joins_ok scripts es ks 0 scripts res.
 
 (* ------------------------------------------------------------------ correspondence *)
 Definition qmodel_obs (maxsize : Z) (scripts : list (list qcall)) (sched : list (nat * bool)) :=
